@@ -58,82 +58,25 @@ theorem ids_right (fs : FS) (cfg : Cfg) (locs : List Dir) (r : Result)
   obtain ⟨_, _, h3, _⟩ := loadLoop_ok_inv fs cfg _ [] r.loaded r.twice (load_ok h).1
   exact ((fromFilename_some fs cfg s.node s).mp (h3 s hs).2).2.2
 
-/-- No reached file has a name that starts with `__init__` without being the module `__init__`. -/
-def NoInitPrefixed (fs : FS) (cfg : Cfg) (locs : List Dir) : Prop :=
-  ∀ n, Reached cfg locs n → startsWith initPrefix (fs.node n).name = true →
-    isInitModule (fs.node n).name = true
-
-/-- **Every one** — full-strength statement: every revision file present in the configured
-locations is loaded. -/
-def loaded_complete_statement (initDot : Bool) : Prop :=
-  ∀ (fs : FS) (cfg : Cfg) (locs : List Dir) (r : Result), cfg.initDot = initDot → RootsOk locs →
-    load fs cfg locs = .ok r → ∀ n, Expected fs cfg locs n → n ∈ nodesOf r
-
-/-- the witness: one version location `va` holding `__init__x.py` (revision `r1`) -/
-def witnessFS : FS :=
-  { node := fun _ => { dir := 0, name := "__init__x.py".toList, content := .rev ['r', '1'] }
-    exists_ := fun _ _ => false }
-def witnessLocs : List Dir := [⟨"va".toList, [⟨"__init__x.py".toList, 0⟩], .nil⟩]
-def witnessCfg : Cfg := { sourceless := false, recursive := false, initDot := false }
-
-/-- The unchanged code violates it: a file whose name merely starts with `__init__` is
-silently skipped (finding C19-F13; the same witness is replayed on the implementation). -/
-theorem loaded_complete_counterexample : ¬ loaded_complete_statement false := by
-  intro hst
-  have hl : load witnessFS witnessCfg witnessLocs = .ok ⟨[], [], [], []⟩ := by rfl
-  have hroots : RootsOk witnessLocs := by
-    intro r hr
-    simp only [witnessLocs, List.mem_singleton] at hr
-    subst hr
-    decide
-  have hexp : Expected witnessFS witnessCfg witnessLocs 0 := by
-    refine ⟨⟨_, List.mem_singleton.mpr rfl, _, .root (by decide), Or.inl ⟨_, List.mem_singleton.mpr rfl, rfl⟩⟩, by decide⟩
-  have := hst witnessFS witnessCfg witnessLocs _ rfl hroots hl 0 hexp
-  simp [nodesOf] at this
-
-/-- **Every one** — what holds of the unchanged code: every revision file present in the
-configured locations is loaded, *provided* no reached file name starts with `__init__`
-other than the module `__init__` itself. -/
-theorem loaded_complete_partial (fs : FS) (cfg : Cfg) (locs : List Dir) (r : Result)
-    (hroots : RootsOk locs) (hinit : cfg.initDot = true ∨ NoInitPrefixed fs cfg locs)
+/-- **Every one.** Every revision file (by the documented rules) that is present in the
+configured locations is loaded. -/
+theorem loaded_complete (fs : FS) (cfg : Cfg) (locs : List Dir) (r : Result) (hroots : RootsOk locs)
     (h : load fs cfg locs = .ok r) : ∀ n, Expected fs cfg locs n → n ∈ nodesOf r := by
   intro n ⟨hreach, hrev⟩
   obtain ⟨_, _, _, h4⟩ := loadLoop_ok_inv fs cfg _ [] r.loaded r.twice (load_ok h).1
   obtain ⟨e, he, hn⟩ := (listed_iff_reached cfg locs hroots n).mpr hreach
-  have hnotinit : cfg.initDot = true ∨ startsWith initPrefix (fs.node n).name = false := by
-    rcases hinit with hd | hinit
-    · exact Or.inl hd
-    · right
-      cases hp : startsWith initPrefix (fs.node n).name with
-      | false => rfl
-      | true =>
-        have hi := hinit n hreach hp
-        unfold isRevFile at hrev
-        simp [hi] at hrev
   have hacc : accepts fs cfg e.node = true := by
-    rw [hn]; exact isRevFile_accepts fs cfg n hrev hnotinit
+    rw [hn]; exact isRevFile_accepts fs cfg n hrev
   obtain ⟨s, hs, hsn⟩ := h4 e he (by simp) hacc
   exact List.mem_map.mpr ⟨s, hs, by rw [hsn, hn]⟩
 
-/-- **Exactly once** (partial form, see `loaded_complete_counterexample`): the loaded canonical
-files are exactly the expected ones, each once. -/
-theorem exact_partial (fs : FS) (cfg : Cfg) (locs : List Dir) (r : Result)
-    (hroots : RootsOk locs) (hinit : cfg.initDot = true ∨ NoInitPrefixed fs cfg locs) (h : load fs cfg locs = .ok r) :
-    (∀ n, n ∈ nodesOf r ↔ Expected fs cfg locs n) ∧ (nodesOf r).Nodup :=
-  ⟨fun n => ⟨loaded_sound fs cfg locs r hroots h n, loaded_complete_partial fs cfg locs r hroots hinit h n⟩,
-   loaded_once fs cfg locs r h⟩
-
-/-- **Every one**, for the repaired look-ahead `(?!\.\#|__init__\.)`: the full-strength statement
-holds (this is the theorem that applies once finding C19-F13 is fixed in the source; the harness
-selects `initDot` from the behaviour of the regexes of the tree under test). -/
-theorem loaded_complete_fixed : loaded_complete_statement true :=
-  fun fs cfg locs r hd hroots h => loaded_complete_partial fs cfg locs r hroots (Or.inl hd) h
-
-/-- **Exactly once**, full strength, for the repaired look-ahead. -/
-theorem exact_fixed (fs : FS) (cfg : Cfg) (locs : List Dir) (r : Result) (hd : cfg.initDot = true)
+/-- **Exactly once.** The loaded canonical files are exactly the revision files present in the
+configured locations, each once. -/
+theorem exact (fs : FS) (cfg : Cfg) (locs : List Dir) (r : Result)
     (hroots : RootsOk locs) (h : load fs cfg locs = .ok r) :
     (∀ n, n ∈ nodesOf r ↔ Expected fs cfg locs n) ∧ (nodesOf r).Nodup :=
-  exact_partial fs cfg locs r hroots (Or.inl hd) h
+  ⟨fun n => ⟨loaded_sound fs cfg locs r hroots h n, loaded_complete fs cfg locs r hroots h n⟩,
+   loaded_once fs cfg locs r h⟩
 
 /-! ## failures are loud -/
 
@@ -188,15 +131,15 @@ theorem dup_id (fs : FS) (cfg : Cfg) (locs : List Dir) (r : Result) (h : load fs
     · have := hid s hs; rw [hdn] at this; exact (Option.some.inj this).symm
     · have := hid t ht; rw [hdm] at this; exact (Option.some.inj this).symm
 
-/-- **Duplicates reported**, in terms of the files that must be loaded (needs exactness, hence the
-same side condition as `exact_partial`; unconditional for the repaired look-ahead). -/
+/-- **Duplicates reported**, in terms of the files that must be loaded: the warning for `x` is
+produced if and only if two different revision files of the configured locations define `x`. -/
 theorem dup_id_expected (fs : FS) (cfg : Cfg) (locs : List Dir) (r : Result) (hroots : RootsOk locs)
-    (hinit : cfg.initDot = true ∨ NoInitPrefixed fs cfg locs) (h : load fs cfg locs = .ok r) (x : Name) :
+    (h : load fs cfg locs = .ok r) (x : Name) :
     x ∈ r.dupWarn ↔
       ∃ n m, n ≠ m ∧ Expected fs cfg locs n ∧ Expected fs cfg locs m ∧
         definesId fs n = some x ∧ definesId fs m = some x := by
   rw [dup_id fs cfg locs r h x]
-  have hex := (exact_partial fs cfg locs r hroots hinit h).1
+  have hex := (exact fs cfg locs r hroots h).1
   constructor
   · rintro ⟨n, hn, m, hm, hne, h1, h2⟩
     exact ⟨n, m, hne, (hex n).mp hn, (hex m).mp hm, h1, h2⟩
@@ -295,26 +238,23 @@ def sampleLocs : List Dir :=
   [⟨"va".toList, [⟨".#a.py".toList, 3⟩, ⟨"__init__.py".toList, 2⟩, ⟨"a.py".toList, 0⟩, ⟨"a.pyc".toList, 1⟩, ⟨"ln.py".toList, 4⟩],
       .cons "sub".toList [⟨"b.py".toList, 4⟩, ⟨"c.pyc".toList, 5⟩] .nil .nil⟩]
 
-example : load sampleFS ⟨true, true, false⟩ sampleLocs =
+example : load sampleFS ⟨true, true⟩ sampleLocs =
     .ok ⟨[⟨0, ['a']⟩, ⟨4, ['a']⟩, ⟨5, ['c']⟩], [4], [['a'], ['c']], [['a']]⟩ := by rfl
 example : RootsOk sampleLocs := by
   intro r hr; simp only [sampleLocs, List.mem_singleton] at hr; subst hr; decide
-example : (judge sampleFS ⟨true, true, false⟩ sampleLocs [(0, ['a']), (4, ['a']), (5, ['c'])] [['a'], ['c']] [['a']]).holds = true := by decide
-/-- with the repaired look-ahead the witness of `loaded_complete_counterexample` is loaded -/
-example : load witnessFS { witnessCfg with initDot := true } witnessLocs =
-    .ok ⟨[⟨0, ['r', '1']⟩], [], [['r', '1']], []⟩ := by rfl
-/-- the side condition of the partial theorems is satisfiable -/
-example : NoInitPrefixed sampleFS ⟨true, true, false⟩ sampleLocs := by
-  intro n _ hp
-  unfold sampleFS at hp ⊢
-  match n with
-  | 0 | 1 | 3 | 4 => simp only at hp; revert hp; decide
-  | 2 => decide
-  | _ + 5 => simp only at hp; exact absurd hp (by decide)
+example : (judge sampleFS ⟨true, true⟩ sampleLocs [(0, ['a']), (4, ['a']), (5, ['c'])] [['a'], ['c']] [['a']]).holds = true := by decide
+/-- a file whose name merely starts with `__init__` is a revision file and is loaded
+(regression guard for the fixed finding C19-F13) -/
+def initPrefixedFS : FS :=
+  { node := fun _ => { dir := 0, name := "__init__x.py".toList, content := .rev ['r', '1'] }
+    exists_ := fun _ _ => false }
+def initPrefixedLocs : List Dir := [⟨"va".toList, [⟨"__init__x.py".toList, 0⟩], .nil⟩]
+example : load initPrefixedFS ⟨false, false⟩ initPrefixedLocs = .ok ⟨[⟨0, ['r', '1']⟩], [], [['r', '1']], []⟩ := by rfl
+example : isRevFile initPrefixedFS ⟨false, false⟩ 0 = true := by decide
 /-- the recogniser rejects an output that skips a file, loads one twice, or hides the duplicate -/
-example : (judge sampleFS ⟨true, true, false⟩ sampleLocs [(0, ['a']), (5, ['c'])] [['a'], ['c']] []).allExpected = false := by decide
-example : (judge sampleFS ⟨true, true, false⟩ sampleLocs [(0, ['a']), (4, ['a']), (4, ['a']), (5, ['c'])] [['a'], ['c']] [['a']]).once = false := by decide
-example : (judge sampleFS ⟨true, true, false⟩ sampleLocs [(0, ['a']), (4, ['a']), (5, ['c'])] [['a'], ['c']] []).dupReported = false := by decide
-example : (judge sampleFS ⟨true, true, false⟩ sampleLocs [(1, ['z']), (4, ['a']), (5, ['c'])] [['z'], ['a'], ['c']] []).onlyExpected = false := by decide
+example : (judge sampleFS ⟨true, true⟩ sampleLocs [(0, ['a']), (5, ['c'])] [['a'], ['c']] []).allExpected = false := by decide
+example : (judge sampleFS ⟨true, true⟩ sampleLocs [(0, ['a']), (4, ['a']), (4, ['a']), (5, ['c'])] [['a'], ['c']] [['a']]).once = false := by decide
+example : (judge sampleFS ⟨true, true⟩ sampleLocs [(0, ['a']), (4, ['a']), (5, ['c'])] [['a'], ['c']] []).dupReported = false := by decide
+example : (judge sampleFS ⟨true, true⟩ sampleLocs [(1, ['z']), (4, ['a']), (5, ['c'])] [['z'], ['a'], ['c']] []).onlyExpected = false := by decide
 
 end C19
